@@ -284,3 +284,38 @@ func VP_C07_held_packets() {
 	vpEqBytes(q3.Data, c.Data, "third payload")
 	vp.Cover("end")
 }
+
+// an operation that failed leaves nothing behind in the pooled buffers or the
+// receiver: after Pack into a writer that failed (at any of the first bytes or
+// the last one) the next Pack emits exactly its own frame, and after UnPack of
+// a truncated frame the same receiver unpacks the next good frame correctly.
+func VP_C07_after_failure() {
+	vp.SizeBound(64)
+	vp.PoolMode(1)
+	t := vpThreshold()
+	a := Packet{ID: vpSmallPacketID(), Data: vp.Bytes(1 + vp.Choice(3))}
+	var probe bytes.Buffer
+	vp.Assert(a.Pack(&probe, t) == nil, "Pack")
+	frameA := append([]byte{}, probe.Bytes()...)
+	b := Packet{ID: vpSmallPacketID(), Data: vp.Bytes(vp.Choice(3))}
+	if vp.Choice(2) == 0 {
+		k := []int{0, 1, len(frameA) - 1}[vp.Choice(3)]
+		vp.Assert(a.Pack(&vpFailWriter{limit: k}, t) != nil, "write failure is reported")
+		var w bytes.Buffer
+		vp.Assert(b.Pack(&w, t) == nil, "Pack after a failed Pack")
+		vpCheckFrame(append([]byte{}, w.Bytes()...), b.ID, b.Data, t)
+		var q Packet
+		vp.Assert(q.UnPack(bytes.NewReader(w.Bytes()), t) == nil && q.ID == b.ID, "frame written after a failed Pack unpacks")
+		vpEqBytes(q.Data, b.Data, "payload round trip after a failed Pack")
+	} else {
+		var w bytes.Buffer
+		vp.Assert(b.Pack(&w, t) == nil, "Pack")
+		var q Packet
+		cut := 1 + vp.Choice(len(frameA)-1)
+		vp.Assert(q.UnPack(bytes.NewReader(frameA[:cut]), t) != nil, "truncated frame is an error")
+		vp.Assert(q.UnPack(bytes.NewReader(w.Bytes()), t) == nil, "UnPack after a failed UnPack")
+		vp.Assert(q.ID == b.ID, "id round trip after a failed UnPack")
+		vpEqBytes(q.Data, b.Data, "payload round trip after a failed UnPack")
+	}
+	vp.Cover("end")
+}
